@@ -61,12 +61,17 @@ func judgeC05(x scnResult, res *MonitorResult) {
 	if scnChain(x.sc.steps) != "btc" {
 		return
 	}
-	conf := uint64(0)
+	conf, earlier := uint64(0), uint64(0)
 	for _, o := range x.w.obs {
 		switch o.Kind {
+		case "confirmed-earlier":
+			earlier = atou(o.A["blocks"])
 		case "step":
 			if strings.HasPrefix(o.A["s"], "txmsg") && o.A["r"] == "ok" && conf == 0 {
 				conf = atou(o.A["btc"]) + 1
+				if earlier > 0 && earlier < conf {
+					conf -= earlier + 1 // confirmed that many blocks before the announcement
+				}
 			}
 		case "pay":
 			if o.A["kind"] != "claim" || strings.HasPrefix(o.A["out"], "refused") || conf == 0 {
@@ -137,6 +142,19 @@ func init() {
 		res.Rule = "taker scenarios on Bitcoin as for C04; every claim payment call judged: pay height + final CLTV + back-end padding (1 CLN, 3 LND) < earliest confirmation height + 1008; non-trivial = a Bitcoin claim payment call was made"
 		seen := map[string]bool{}
 		all := []scn{paygateScn("btc", 800000, 504, 0, 0, 504), paygateScn("btc", 800000, 503, 0, 0, 504)}
+		// the maker confirms the opening transaction early and withholds the announcement; the taker is restarted
+		// in between (a restart must not move the height the taker measures from)
+		for _, late := range []int{300, 505, 600, 1000} {
+			for _, r := range []string{"", "restart"} {
+				st := []string{"new outSender btc", "agree", fmt.Sprintf("blocks btc %d", late)}
+				st2 := []string{"new inReceiver btc", fmt.Sprintf("blocks btc %d", late)}
+				if r != "" {
+					st, st2 = append(st, r), append(st2, r)
+				}
+				tail := []string{fmt.Sprintf("txmsg confago=%d cltv=503", late-1), "confirm"}
+				all = append(all, scn{role: "outSender", steps: append(st, tail...)}, scn{role: "inReceiver", steps: append(st2, tail...)})
+			}
+		}
 		all = append(all, takerScenarios(r, n)...)
 		runMany(defaultCfg(), all, func(x scnResult) {
 			res.Evaluations++
